@@ -4,6 +4,7 @@ request  {"op":"c17","doc":<Doc>,"states":[[[species,"amount"],..],..],"watch":[
 answer   {"names": [[id, imported name]..],
           "init":  [[id, amount | value]..]          species and parameters
           "at":    [{"vals":[[n,v]..] (watched rule-defined quantities), "rhs":[[species, d amount/dt]..]}..]}
+request  {"op":"c17","session":[[stem,digest,code]..]}  → {"handles":[module name..], "names":[..], "intact":[[source ok, loaded ok]..]}   readAll
 request  {"op":"c17","stems":[s..]}                       → {"norm":[normStem s ..]}
 request  {"op":"c17","free":[name,[taken..]]}             → {"name": freeName taken name}
 request  {"op":"c17","symrepr":<SymRepr>}                 → {"ok": <Module>} | {"err": "ValueError"}      genModule
@@ -20,6 +21,7 @@ import Driver.Wire
 import Driver.H_c08
 import MxlVerif.Model.C17Doc
 import MxlVerif.Model.C17Codegen
+import MxlVerif.Model.C17Session
 open Lean Mxl Mxl.Wire Mxl.C08 Mxl.C17
 namespace Driver.H_c17
 
@@ -64,7 +66,8 @@ def optJ' (o : Option String) : Json :=
 
 def jSpecies (j : Json) : Except String Species := do
   pure { id := ← jStr (← field j "id"), comp := ← jStr (← field j "comp"), init := ← jOptRat (← field j "init"),
-         isAmount := ← jBool (← field j "isAmount"), hosu := ← jBool (← field j "hosu") }
+         isAmount := ← jBool (← field j "isAmount"), hosu := ← jBool (← field j "hosu"),
+         fixed := match j.getObjVal? "fixed" with | .ok (.bool b) => b | _ => false }
 
 def jFunDef (j : Json) : Except String FunDef := do
   pure { id := ← jStr (← field j "id"), params := ← jList jStr (← field j "params"), body := ← jMath (← field j "body") }
@@ -208,7 +211,22 @@ def handlePModel (j : Json) : Except String Json := do
   | .obj kvs => pure (Json.obj (kvs.insert "sym" (Json.mkObj [("variables", qs s.variables), ("parameters", qs s.parameters)])))
   | other => pure other
 
+/-- {"session": [[stem, digest, code]..]} → handles, and for every document whether the source / the loaded text
+    under its handle is still its own after all reads -/
+def handleSession (j : Json) : Except String Json := do
+  let ds ← (← jArr j).mapM fun dj => do
+    match ← jArr dj with
+    | [a, b, c] => pure (⟨← jStr a, ← jStr b, ← jStr c⟩ : ReadIn)
+    | _ => .error "bad session document"
+  let (s, hs) := readAll Session.empty ds
+  let ok := (ds.zip hs).map fun (d, h) => Json.arr #[.bool (sourceOf s h == some d.code), .bool (loadedOf s h == some d.code)]
+  pure (Json.mkObj [("handles", strsJ hs), ("names", strsJ (ds.map outName)), ("intact", .arr ok.toArray),
+                    ("module_names", strsJ (ds.map fun d => moduleName d.stem d.digest))])
+
 def handle (j : Json) : Except String Json := do
+  match j.getObjVal? "session" with
+  | .ok sj => handleSession sj
+  | .error _ =>
   match j.getObjVal? "symrepr" with
   | .ok sj => handleSym sj
   | .error _ =>
